@@ -2,6 +2,7 @@
 from __future__ import annotations
 
 import itertools
+import os
 
 from .common import Check, cmat, fmt_ints, fmt_matrix, kv
 
@@ -123,6 +124,20 @@ def dirty_rows(rng, n, W, H, nb):
 
 
 def streams(ck: Check, prop: str = "C01") -> None:
+    """implementation phase in a child process (a decoder that never returns is reported, not waited for), then
+    model run, correspondence and spec oracle in the parent"""
+    from .common import run_in_child
+    limit = int(os.environ.get("VERIF_IMPL_LIMIT", "900" if ck.quick else "7200"))
+    done, res = run_in_child(lambda: _impl_phase(ck), limit)
+    if not done:
+        ck.spec(False, "decode_does_not_return", f"a decode call did not return within {limit} s of stream time: the "
+                "model terminates on every input (theorem settle_terminates), the decoder must too", ck.read_in_flight())
+        return
+    ops, ctx, ck.evaluations, ck.distinct, ck.hist, ck.samples = res
+    _judge(ck, ops, ctx)
+
+
+def _impl_phase(ck: Check):
     import numpy as np
     from moptipyapps.binpacking2d.encodings.ibl_encoding_1 import ImprovedBottomLeftEncoding1
     from moptipyapps.binpacking2d.encodings.ibl_encoding_2 import ImprovedBottomLeftEncoding2
@@ -137,7 +152,8 @@ def streams(ck: Check, prop: str = "C01") -> None:
         except (ValueError, TypeError):
             inst = None
         ops.append(f"inst {fmt_inst(W, H, items)}")
-        ctx.append(("inst", stream, inst, None))
+        ctx.append(("inst", stream, None if inst is None else
+                    (str(inst.dtype), int(inst.n_items), int(inst.total_item_area)), None))
         if inst is None:
             ck.count("ctor_err")
             continue
@@ -162,6 +178,8 @@ def streams(ck: Check, prop: str = "C01") -> None:
                         bs[:] = 0   # np.empty content is arbitrary; make it defined for the model's input
                         be[:] = 0
                     s0, e0 = [int(v) for v in bs], [int(v) for v in be]
+                ck.in_flight({"W": W, "H": H, "items": items, "x": x, "encoding": ei + 1, "y0": y0 if n <= 40 else "<dirty>",
+                              "bin_starts": s0, "bin_ends": e0})
                 enc.decode(np.array(x, dtype=inst.dtype if rng.random() < 0.5 else np.int64), y)
                 rows = [[int(v) for v in r] for r in y]
                 if ei == 0:
@@ -174,6 +192,11 @@ def streams(ck: Check, prop: str = "C01") -> None:
                 ops.append(f"feas {fmt_inst(W, H, items)} ; {int(y.n_bins)} ; {fmt_matrix(rows)}")
                 ctx.append(("feas", stream, (W, H, items, x, ei + 1), (rows, int(y.n_bins))))
                 ck.count(f"bins_{min(int(y.n_bins), 5)}{'+' if y.n_bins >= 5 else ''}")
+    return ops, ctx, ck.evaluations, ck.distinct, ck.hist, ck.samples
+
+
+def _judge(ck: Check, ops, ctx) -> None:
+    from .common import cmat   # noqa: F401  (used below)
     outs = ck.model(ops, drv="drv_c01")
     seen_dec = {}
     for line, (kind, stream, a, b), mout in zip(ops, ctx, outs):
@@ -184,7 +207,7 @@ def streams(ck: Check, prop: str = "C01") -> None:
                 ck.compare(stream, line, d.get("valid", mout), "false")
             else:
                 ck.compare(stream, line, f"{d.get('valid')} {d.get('dtype')} {d.get('nitems')} {d.get('area')}",
-                           f"true {inst.dtype} {inst.n_items} {inst.total_item_area}")
+                           f"true {inst[0]} {inst[1]} {inst[2]}")
         elif kind == "dec":
             rows, nb = b
             ck.compare(stream, line[:400], f"{d.get('rows', mout)} {d.get('nbins')}", f"{cmat(rows)} {nb}")
